@@ -5,6 +5,7 @@ package route
 import (
 	"fmt"
 	"math"
+	"net/url"
 	"strings"
 	"testing"
 	"time"
@@ -97,12 +98,58 @@ func c19Val(rng *verifkit.Rand, msgpack bool, depth int) E3Val {
 	return c19Scalar(rng, msgpack)
 }
 
+var c19Datasets = []string{"ds", "my ds", "a/b", "ü-data", "x%y", "q?r#s", "c++ services", "a+b", "+", "+ +", "%2B", "a%2Bb", "a%20b", "100%25", "%",
+	"日本語 データ", "...", "a..b", ".hidden", "..", ".", "k:v@host", "a&b=c;d,e", "$!*'()", "~user_name-1.2", " lead", "trail ", "semi;colon", "co,mma", "eq=&amp"}
+
+const c19DatasetAlphabet = "ab+ %.:@&=;,$!*'()/?#~-_2B0"
+
+// c19Dataset returns the LOGICAL dataset name the client means.
+func c19Dataset(rng *verifkit.Rand) string {
+	if rng.Chance(0.6) {
+		return c19Datasets[rng.Intn(len(c19Datasets))]
+	}
+	n := rng.Range(1, 8)
+	var sb strings.Builder
+	for i := 0; i < n; i++ {
+		if rng.Chance(0.1) {
+			sb.WriteString("ü")
+			continue
+		}
+		sb.WriteByte(c19DatasetAlphabet[rng.Intn(len(c19DatasetAlphabet))])
+	}
+	return sb.String()
+}
+
+// c19Spell percent-encodes a logical name as one path segment the way different correct
+// clients do: url.PathEscape; RFC 3986 pchar with sub-delims, ':' and '@' left literal;
+// or every non-alphanumeric byte encoded. All three denote the same segment.
+func c19Spell(name, spelling string) string {
+	if spelling == "pathescape" {
+		return url.PathEscape(name)
+	}
+	var sb strings.Builder
+	for i := 0; i < len(name); i++ {
+		c := name[i]
+		alnum := (c >= 'a' && c <= 'z') || (c >= 'A' && c <= 'Z') || (c >= '0' && c <= '9')
+		literal := alnum
+		if spelling == "literal-subdelims" {
+			literal = alnum || strings.IndexByte("-._~!$&'()*+,;=:@", c) >= 0
+		}
+		if literal {
+			sb.WriteByte(c)
+		} else {
+			fmt.Fprintf(&sb, "%%%02X", c)
+		}
+	}
+	return sb.String()
+}
+
 var c19Peers = []string{"", "http://peer-a.verif.invalid:8081", "https://10.2.3.4:9000"}
 
 func TestVerif_C19(t *testing.T) {
 	run := verifkit.Start(t, "C19", "route")
 	defer run.Finish()
-	run.Rule("per case one request (/1/events or /1/batch of 1-6 events; JSON or msgpack; none/gzip/zstd; incoming or peer listener; legacy or environment key; datasets needing URL escapes) whose events are PRNG-chosen among plain events, spans (trace ID in a configured field or meta.trace_id) and probes, with generated field maps (strings, ints/uints of several widths, floats, bools, nil, nested arrays/maps), sample rates {absent,0,1,2,10,1000,2^31-1} and exactly representable timestamps; ownership of each trace ID scripted among this node and two peers; stress state scripted per case with a per-trace (processed, kept) decision; non-trivial = request holding >=2 different expected routes or a stressed span or a peer-owned span; distinct = (listener, encoding, stressed, multiset of expected routes)")
+	run.Rule("per case one request (/1/events or /1/batch of 1-6 events; JSON or msgpack; none/gzip/zstd; incoming or peer listener; legacy or environment key; logical dataset names with + %2B %20 %25 spaces unicode dots and every sub-delim, spelled in the URL by url.PathEscape, with literal sub-delims, or fully percent-encoded) whose events are PRNG-chosen among plain events, spans (trace ID in a configured field or meta.trace_id) and probes, with generated field maps (strings, ints/uints of several widths, floats, bools, nil, nested arrays/maps), sample rates {absent,0,1,2,10,1000,2^31-1} and exactly representable timestamps; ownership of each trace ID scripted among this node and two peers; stress state scripted per case with a per-trace (processed, kept) decision; non-trivial = request holding >=2 different expected routes or a stressed span or a peer-owned span; distinct = (listener, encoding, stressed, multiset of expected routes)")
 	run.Assume("collaborators record synchronously inside the handler; a snapshot is what the collaborator was handed at that moment")
 	run.Assume("fields-unchanged uses the value equivalence of DESIGN C20 (int width / float width may change, JSON numbers arrive as floats); binary/ext/timestamp VALUES inside data are not generated (C20 owns them)")
 
@@ -125,7 +172,7 @@ func TestVerif_C19(t *testing.T) {
 		}
 		stressed := rng.Chance(0.3)
 		key := verifkit.Pick(rng, E3KeyLegacy, E3KeyEnv, E3KeyEnv2)
-		dataset := verifkit.Pick(rng, "ds", "my ds", "a/b", "ü-data", "x%y", "q?r#s")
+		dataset := c19Dataset(rng)
 		// trace pool for this case: few ids so that several events share a trace
 		type tr struct {
 			id, owner       string
@@ -229,10 +276,31 @@ func c19Run(run *verifkit.Run, b *E3Bench, rng *verifkit.Rand, req *E3Req, lst E
 	if rng.Bool() {
 		req.Set("User-Agent", "libhoney-verif/1.0")
 	}
+	// how the client spells the dataset in the URL (the logical name is what it means)
+	spelling := verifkit.Pick(rng, "pathescape", "pathescape", "literal-subdelims", "encode-all")
+	req.Path = req.Path[:strings.LastIndex(req.Path, "/")+1] + c19Spell(dataset, spelling)
 	b.Log.Reset()
 	resp := b.Serve(req)
 	run.Count("requests", 1)
+	if resp.TransportErr != "" || ((resp.Status/100 == 3 || resp.Status == 404 || resp.Status == 405) && len(b.Log.Effects()) == 0) {
+		// net/http or the mux refused / redirected the URL before any handler ran
+		// (dot segments, empty segment): nothing to judge
+		run.Count("requests_rejected_before_handler", 1)
+		return
+	}
+	run.Count("dataset_spelling_"+spelling, 1)
 	byID := b.Log.ByID()
+	// the dataset must be the logical name at EVERY hand-over
+	for _, o := range b.Log.Effects() {
+		if o.Ev.Dataset != dataset {
+			where := strings.SplitN(o.Where, ".", 2)[0]
+			if o.Where == E3AtPeerEvent {
+				where = "peer-forward"
+			}
+			run.Violation("C19/"+where+"/dataset-changed", fmt.Sprintf("dataset %q (sent as %q) handed over at %s as %q", dataset, req.Path, o.Where, o.Ev.Dataset),
+				map[string]any{"dataset": dataset, "spelling": spelling, "observation": o, "request": req.Witness(), "response": resp})
+		}
+	}
 	state := "normal"
 	if stressed {
 		state = "stressed"
@@ -312,9 +380,6 @@ func c19Run(run *verifkit.Run, b *E3Bench, rng *verifkit.Rand, req *E3Req, lst E
 				}
 				if ev.APIKey != key {
 					run.Violation("C19/peer-forward/api-key-changed", fmt.Sprintf("API key %q forwarded as %q", key, ev.APIKey), wit())
-				}
-				if ev.Dataset != dataset {
-					run.Violation("C19/peer-forward/dataset-changed", fmt.Sprintf("dataset %q forwarded as %q", dataset, ev.Dataset), wit())
 				}
 				if !(int64(ev.SampleRate) == e.Rate || (e.Rate <= 0 && ev.SampleRate <= 1)) {
 					run.Violation("C19/peer-forward/sample-rate-changed", fmt.Sprintf("sample rate %d forwarded as %d", e.Rate, ev.SampleRate), wit())
